@@ -118,3 +118,40 @@ def fuzz_trace(rng, uni, mp, sets, name, steps=12):
 
 def fuzz_traces(rng, uni, mp, sets, count, tag, steps=12):
     return [fuzz_trace(rng, uni, mp, sets, "%s/%d" % (tag, k), steps) for k in range(count)]
+
+
+def lineage_trace(rng, uni, mp, ps, g, cls, name, steps=14):
+    """one session and all its revived copies: random calls on ANY member of the family - serialize() before and
+    after finish(), the same blob restored twice, blobs produced by restored copies, the original finishing after a
+    copy (or the other way round), start() on copies, repeated finish() - with honest, reflected and bad messages"""
+    r = Run(name, uni)
+    G = uni.group(g)
+    q = G.order()
+    r.new("v0", cls, ps, rng.choice(PWS), rng.choice(IDS), rng.choice(IDS) if cls != "S" else b"")
+    if rng.random() < 0.9:
+        r.start("v0", mp.stream_for(g, rng.choice([0, 1, q - 1, rng.randrange(q)]), redraws=rng.randrange(2)))
+    fam, blobs, n = ["v0"], [], 0
+    for _ in range(steps):
+        var = rng.choice(fam)
+        op = rng.choice(["serialize", "serialize", "restore", "restore", "restore", "finish", "finish", "start"])
+        if op == "serialize":
+            b = r.serialize(var)
+            if b is not None:
+                blobs.append(b)
+        elif op == "restore" and blobs:
+            n += 1
+            if r.restore("v%d" % n, cls, ps, rng.choice(blobs)) is not None:
+                fam.append("v%d" % n)
+        elif op == "start":
+            r.start(var, mp.stream_for(g, rng.randrange(q)))
+        elif op == "finish":
+            own = getattr(r.t.objs[r.inst[var]], "outbound_message", b"x")[1:]
+            k = rng.randrange(6)
+            body = own if k == 0 else G.Zero.to_bytes() if k == 1 else G.Base.scalarmult(rng.randrange(1, q)).to_bytes()
+            if k == 2:
+                body += b"\x00"
+            side = PEER[cls] if k != 3 else cls.encode()
+            r.finish(var, side + body)
+    for var in fam[-2:]:
+        r.serialize(var)
+    return r.json()
